@@ -25,9 +25,10 @@ func TestMain(m *testing.M)   { ev.Main(m, "C14") }
 func TestReplay(t *testing.T) { ev.ReplayWitnesses(t) }
 
 type Op struct {
-	Kind string `json:"kind"` // store | get | delete | update | meta
-	Key  int    `json:"key"`
-	Size int    `json:"size,omitempty"`
+	Kind   string `json:"kind"` // store | get | delete | update | meta
+	Key    int    `json:"key"`
+	Size   int    `json:"size,omitempty"`
+	LifeMs int    `json:"life_ms,omitempty"` // store / update: lifetime from now (negative = already expired); 0 = one hour
 }
 
 type Change struct {
@@ -44,7 +45,7 @@ type Workload struct {
 	Procs      int      `json:"gomaxprocs"`
 	Plans      [][]Op   `json:"plans"`
 	Changes    []Change `json:"changes"`
-	YieldUs    int      `json:"yield_us"` // perturbation at the hook points
+	YieldUs    int      `json:"yield_us"`   // perturbation at the hook points
 	EarlyStop  bool     `json:"early_stop"` // Destroy() is issued while run-time changes are still being applied (shutdown during an update)
 }
 
@@ -88,7 +89,12 @@ var subWL = ev.Register("cache-workloads",
 			})
 			defer verifhook.Set(nil)
 		}
-		far := time.Now().Add(time.Hour)
+		life := func(ms int) time.Time {
+			if ms == 0 {
+				return time.Now().Add(time.Hour)
+			}
+			return time.Now().Add(time.Duration(ms) * time.Millisecond)
+		}
 		var phase atomic.Value
 		phase.Store("operations")
 		done := make(chan struct{})
@@ -103,7 +109,7 @@ var subWL = ev.Register("cache-workloads",
 					for _, op := range plan {
 						switch op.Kind {
 						case "store":
-							if e, err := k.Store(op.Key, int(ver.Add(1)), op.Size, far, -1); err == nil {
+							if e, err := k.Store(op.Key, int(ver.Add(1)), op.Size, life(op.LifeMs), -1); err == nil {
 								e.Data.Close()
 							}
 						case "get":
@@ -113,7 +119,8 @@ var subWL = ev.Register("cache-workloads",
 						case "delete":
 							k.C.Delete(cachekit.Key(op.Key))
 						case "update":
-							k.C.UpdateMetadata(cachekit.Key(op.Key), func(m *cache.EntryMetadata[cachekit.Meta]) { m.Expires = far })
+							exp := life(op.LifeMs)
+							k.C.UpdateMetadata(cachekit.Key(op.Key), func(m *cache.EntryMetadata[cachekit.Meta]) { m.Expires = exp })
 						case "meta":
 							k.C.GetMetadata(cachekit.Key(op.Key))
 						}
@@ -198,6 +205,10 @@ func drawWorkload(t *rapid.T) Workload {
 			op := Op{Kind: rapid.SampledFrom([]string{"store", "store", "store", "get", "get", "delete", "update", "meta"}).Draw(t, "kind"), Key: rapid.IntRange(0, keys-1).Draw(t, "key")}
 			if op.Kind == "store" {
 				op.Size = body - rapid.IntRange(0, 50).Draw(t, "delta")
+			}
+			if op.Kind == "store" || op.Kind == "update" {
+				// short and negative lifetimes: the 1 ms janitor finds expired entries while they are being revalidated or overwritten
+				op.LifeMs = rapid.SampledFrom([]int{0, 0, -5, -1, 1, 2, 5, 20}).Draw(t, "life")
 			}
 			plan = append(plan, op)
 		}
